@@ -39,6 +39,9 @@ static unsigned n_alloc, n_free;
 #ifndef C10_FN2
 #define C10_FN2 C10_FN            /* a second function of the same size class (e.g. UNKNOWN for LOP) */
 #endif
+#ifndef C10_DATA
+#define C10_DATA 8                /* bytes of page body kept under CBMC (see the memcpy model below) */
+#endif
 #ifndef C10_X26
 #define C10_X26 0
 #endif
@@ -49,9 +52,9 @@ struct __attribute__((packed)) c10_page {
   struct node hash_node, pri_node; cache_network *network; unsigned ref_count; cache_priority priority;
   enum ttx_page_function function; vbi_pgno pgno; vbi_subno subno; int national;
   unsigned flags, lop_packets, x26_designations, x27_designations, x28_designations, pad_;
-  uint8_t data[C10_PSIZE - 88];
+  uint8_t data[C10_DATA];
 };
-typedef char c10_layout_check[(sizeof(struct c10_page) == C10_PSIZE && offsetof(struct c10_page, data) == offsetof(cache_page, data)
+typedef char c10_layout_check[(sizeof(struct c10_page) == 88 + C10_DATA && offsetof(struct c10_page, data) == offsetof(cache_page, data)
   && offsetof(struct c10_page, x28_designations) == offsetof(cache_page, x28_designations) && offsetof(struct c10_page, pgno) == offsetof(cache_page, pgno)
   && offsetof(struct c10_page, network) == offsetof(cache_page, network) && offsetof(struct c10_page, priority) == offsetof(cache_page, priority)) ? 1 : -1];
 #ifdef VERIF_CBMC
@@ -119,6 +122,23 @@ static void c10_free(void *p)
 #endif
 }
 
+#ifdef VERIF_CBMC
+/* memcpy model (CBMC only; the native build uses libc on exact-size malloc blocks).  cache.c calls memcpy once:
+ * _vbi_cache_put_page copies the page body.  The model records the call (the harness asserts the contract
+ * dst == body of the new allocation, src == body of the source, n == allocation size - header size, which is
+ * what keeps the copy inside both exact-size objects) and copies the first C10_DATA bytes, so the pool
+ * objects need only hold header + C10_DATA bytes: a whole-object update through a list pointer then costs
+ * 96 bytes instead of 1.2 .. 4.5 KB. */
+static const void *MC_dst, *MC_src; static size_t MC_n; static unsigned MC_calls;
+void *memcpy(void *dst, const void *src, size_t n)
+{
+  unsigned i;
+  MC_dst = dst; MC_src = src; MC_n = n; MC_calls++;
+  for (i = 0; i < C10_DATA; i++) if (i < n) ((uint8_t *) dst)[i] = ((const uint8_t *) src)[i];
+  return dst;
+}
+#endif
+
 /* log / intl environment: never reached with log hooks off, bodies needed at link time */
 _vbi_log_hook _vbi_global_log;
 void _vbi_log_printf(vbi_log_fn *f, void *u, vbi_log_mask m, const char *a, const char *b, const char *c, ...) { (void) f; (void) u; (void) m; (void) a; (void) b; (void) c; }
@@ -158,11 +178,7 @@ struct view {
   struct ttx_page_stat st[NN][NA];
 };
 
-#ifndef EXP_NO_M0
 #define M0_OF(cp) (*(const uint8_t *) &(cp)->data)
-#else
-#define M0_OF(cp) 0
-#endif
 #define K_HASH 0
 #define K_PRI 1
 #define K_NET 2
@@ -315,18 +331,13 @@ static int audit(struct view *v)
 }
 
 /* ---------------------------------------------------------------- state builder */
-static void ins_at(struct node *l, struct node *n, unsigned pos)
-{
-  struct node *b = l; unsigned k;
-  for (k = 0; k < NP; k++) if (k < pos) b = b->_succ;      /* pos beyond the end wraps: still a valid position */
-  insert_after(b, n);
-}
-
-static struct { int live, net, pgno, subno, fn, ref, zombie; } SP[NP];
-
-/* page number of each page slot: index into the alphabet, CONCRETE (runner grid) - the bucket a page hangs on
- * selects one of 113 list heads inside the cache object; a symbolic selection makes every list access a
- * symbolic-offset access into that object (AGENT_BRIEF rule 2) */
+/* Page number (alphabet index) and reference class (0 = unreferenced: on the priority list, 1 = referenced: on the
+ * referenced list, zombie or not) of each page slot are CONCRETE (runner grid).  Measured reason: CBMC's points-to
+ * sets keep one offset per object; a pri_node that may hang on either ca->priority or ca->referenced, or a
+ * hash_node on one of several ca->hash[] heads, makes every later list write a symbolic-offset update of the
+ * whole vbi_cache object (builder + audit alone: 3 M variables, 20 M clauses, no verdict for any operation).
+ * Everything else is symbolic: liveness, network, subpage number, reference count, zombie flag, priority,
+ * statistics, and the ORDER of every list (a symbolic permutation, linked with concrete neighbours). */
 #ifndef C10_S0
 #define C10_S0 0
 #endif
@@ -339,7 +350,20 @@ static struct { int live, net, pgno, subno, fn, ref, zombie; } SP[NP];
 #ifndef C10_S3
 #define C10_S3 2
 #endif
+#ifndef C10_R0
+#define C10_R0 0
+#endif
+#ifndef C10_R1
+#define C10_R1 1
+#endif
+#ifndef C10_R2
+#define C10_R2 0
+#endif
+#ifndef C10_R3
+#define C10_R3 1
+#endif
 static const int SPA[4] = { C10_S0, C10_S1, C10_S2, C10_S3 };
+static const int SRC_[4] = { C10_R0, C10_R1, C10_R2, C10_R3 };
 
 /* builder-side allocation: slot index concrete, liveness symbolic */
 static void *take_page(int i, unsigned size, int live)
@@ -363,49 +387,86 @@ static void *take_net(int n, int live)
   return net_ptr[n];
 }
 
+/* links the member nodes into list head in the order of permutation number perm (of n <= 3 candidates) */
+static const int PERM[6][3] = { {0, 1, 2}, {0, 2, 1}, {1, 0, 2}, {1, 2, 0}, {2, 0, 1}, {2, 1, 0} };
+static void link_list(struct node *head, struct node *n0, struct node *n1, struct node *n2, const int *member, int n, unsigned perm)
+{
+  unsigned p; int k;
+  for (p = 0; p < 6; p++) if (perm == p) {
+    struct node *prev = head;
+    for (k = 0; k < 3; k++) {
+      const int j = PERM[p][k];
+      struct node *nd = j == 0 ? n0 : j == 1 ? n1 : n2;
+      if (j < n && member[j]) { prev->_succ = nd; nd->_pred = prev; prev = nd; }
+    }
+    prev->_succ = head; head->_pred = prev;
+  }
+}
+
+static int BUILD_MAX_NETS = NN;
+#if NP > 3 || NN > 3
+#error "builder handles up to 3 pages / 3 networks"
+#endif
 /* max_pages: number of page slots the state may use (the rest stays free for the operation) */
 static void build_state(int max_pages)
 {
-  int i, n, a;
+  int i, n, a, memb[3];
+  unsigned perm_n, perm_p, perm_r, perm_h[NA];
+  struct node *nd[3];
   CA = vbi_cache_new();
   for (n = 0; n < NN; n++) {
-    unsigned live = in_u8() & 1, ref = in_u8(), zombie = in_u8(), pos = in_u8(), maxc = in_u8();
+    unsigned live = in_u8() & 1, ref = in_u8(), zombie = in_u8(), maxc = in_u8();
     struct ttx_page_stat st[NA];
     cache_network *cn;
-    in_bytes(st, sizeof st);
+    for (a = 0; a < NA; a++) { st[a].page_type = in_u8(); st[a].charset_code = in_u8(); st[a].subcode = in_u16(); st[a].flags = in_u32();
+      st[a].n_subpages = 0; st[a].max_subpages = in_u8(); st[a].subno_min = in_u8(); st[a].subno_max = in_u8(); }
     if (n == 0) live = 1;
-    V_ASSUME(ref <= 2 && zombie <= 1 && pos <= NN);
+    if (n >= BUILD_MAX_NETS) live = 0;
+    V_ASSUME(ref <= 2 && zombie <= 1);
     cn = (cache_network *) take_net(n, (int) live);
     if (!live) continue;
     cn->cache = CA; cn->ref_count = ref; cn->zombie = (vbi_bool) zombie; cn->max_cached_pages = maxc;
-    for (a = 0; a < NA; a++) { st[a].n_subpages = 0; cn->_pages[PGA[a] - 0x100] = st[a]; }
-    ins_at(&CA->networks, &cn->node, pos);
+    for (a = 0; a < NA; a++) cn->_pages[PGA[a] - 0x100] = st[a];
     if (!zombie) CA->n_cached_networks++;
   }
   for (i = 0; i < NP; i++) {
     unsigned live = in_u8() & 1, net = in_u8(), subno = in_u16(), fnsel = in_u8(), ref = in_u8(), zombie = in_u8(), pri = in_u8(),
-             posh = in_u8(), posp = in_u8(), nat = in_u8(), flags = in_u32(), m0 = in_u8();
+             nat = in_u8(), flags = in_u32(), m0 = in_u8();
     const int pgno = PGA[SPA[i]];
-    int fn; unsigned size; cache_page *cp; cache_network *cn; struct ttx_page_stat *ps;
+    int fn; cache_page *cp; cache_network *cn; struct ttx_page_stat *ps;
     if (i >= max_pages) live = 0;
-    V_ASSUME(net < NN && ref <= 2 && zombie <= 1 && (!zombie || ref > 0) && pri <= 1 && posh <= NP && posp <= NP && fnsel <= 1);
+    if (SRC_[i]) { V_ASSUME(ref >= 1 && ref <= 2 && zombie <= 1); } else { ref = 0; zombie = 0; }
+    V_ASSUME(net < NN && pri <= 1 && fnsel <= 1);
     if (live) V_ASSUME(net_live[net] && key_ok(pgno, (int) subno));
-    fn = fnsel ? (int) (C10_FN2) : (int) (C10_FN); size = C10_PSIZE;
-    cp = (cache_page *) take_page(i, size, (int) live);
-    SP[i].live = (int) live;
+    fn = fnsel ? (int) (C10_FN2) : (int) (C10_FN);
+    cp = (cache_page *) take_page(i, C10_PSIZE, (int) live);
     if (!live) continue;
     cn = net_ptr[net]; ps = &cn->_pages[pgno - 0x100];
     cp->network = cn; cp->ref_count = ref; cp->priority = zombie ? CACHE_PRI_ZOMBIE : (pri ? CACHE_PRI_SPECIAL : CACHE_PRI_NORMAL);
-    cp->function = (enum ttx_page_function) fn; cp->pgno = pgno; cp->subno = (int) subno; cp->national = (int) nat; cp->flags = flags; cp->x26_designations = C10_X26; cp->x28_designations = C10_X28;
-#ifndef EXP_NO_M0
+    cp->function = (enum ttx_page_function) fn; cp->pgno = pgno; cp->subno = (int) subno; cp->national = (int) nat; cp->flags = flags;
+    cp->x26_designations = C10_X26; cp->x28_designations = C10_X28;
     *(uint8_t *) &cp->data = (uint8_t) m0;
-#endif
-    if (!zombie) ins_at(&CA->hash[pgno % HASH_SIZE], &cp->hash_node, posh);
-    if (ref > 0) { ins_at(&CA->referenced, &cp->pri_node, posp); cn->n_referenced_pages++; }
-    else { ins_at(&CA->priority, &cp->pri_node, posp); CA->memory_used += size; }
+    if (ref > 0) cn->n_referenced_pages++; else CA->memory_used += C10_PSIZE;
     CA->n_cached_pages++; cn->n_cached_pages++; ps->n_subpages++;
-    SP[i].net = (int) net; SP[i].pgno = pgno; SP[i].subno = (int) subno; SP[i].fn = fn; SP[i].ref = (int) ref; SP[i].zombie = (int) zombie;
   }
+  perm_n = in_u8(); perm_p = in_u8(); perm_r = in_u8();
+  for (a = 0; a < NA; a++) perm_h[a] = in_u8();
+  V_ASSUME(perm_n < 6 && perm_p < 6 && perm_r < 6);
+  /* networks list */
+  for (n = 0; n < 3; n++) { memb[n] = n < NN && net_live[n]; nd[n] = n < NN && net_ptr[n] ? &net_ptr[n]->node : &CA->networks; }
+  link_list(&CA->networks, nd[0], nd[1], nd[2], memb, NN, perm_n);
+  /* hash chains, priority list, referenced list */
+  for (i = 0; i < 3; i++) nd[i] = i < NP && pg_ptr[i] ? &pg_ptr[i]->hash_node : &CA->priority;
+  for (a = 0; a < NA; a++) if (bucket_first(a) == a) {
+    V_ASSUME(perm_h[a] < 6);
+    for (i = 0; i < 3; i++) memb[i] = i < NP && pg_live[i] && PGA[SPA[i]] % HASH_SIZE == PGA[a] % HASH_SIZE && pg_ptr[i]->priority != CACHE_PRI_ZOMBIE;
+    link_list(&CA->hash[PGA[a] % HASH_SIZE], nd[0], nd[1], nd[2], memb, NP, perm_h[a]);
+  }
+  for (i = 0; i < 3; i++) nd[i] = i < NP && pg_ptr[i] ? &pg_ptr[i]->pri_node : &CA->priority;
+  for (i = 0; i < 3; i++) memb[i] = i < NP && pg_live[i] && !SRC_[i];
+  link_list(&CA->priority, nd[0], nd[1], nd[2], memb, NP, perm_p);
+  for (i = 0; i < 3; i++) memb[i] = i < NP && pg_live[i] && SRC_[i];
+  link_list(&CA->referenced, nd[0], nd[1], nd[2], memb, NP, perm_r);
   /* the history-dependent parts of the invariant that are free inputs: high-water marks, and a zombie network
    * exists only while somebody holds it or one of its pages */
   for (n = 0; n < NN; n++) if (net_live[n]) {
@@ -579,6 +640,11 @@ V_HARNESS(h_get)
 #define C10_PUT_FN C10_FN
 #define C10_PUT_X26 C10_X26
 #define C10_PUT_X28 C10_X28
+#ifdef VERIF_CBMC
+#define BODY_LAST (88 + C10_DATA - 1)
+#else
+#define BODY_LAST (C10_PSIZE - 1)
+#endif
 static cache_page *SRCP;            /* exact-size source object: reading beyond cache_page_size(src) is a bounds failure */
 #define SRC (*SRCP)
 static void src_new(void)
@@ -603,7 +669,7 @@ V_HARNESS(h_put)
   size = ref_size((int) (C10_PUT_FN), C10_PUT_X26, C10_PUT_X28);
   V_ASSERT(size == C10_PSIZE, "grid_function_matches_size_class");
   SRC.pgno = pgno; SRC.subno = subno;
-  ((uint8_t *) SRCP)[offsetof(cache_page, data)] = m0; ((uint8_t *) SRCP)[C10_PSIZE - 1] = mlast;
+  ((uint8_t *) SRCP)[offsetof(cache_page, data)] = m0; ((uint8_t *) SRCP)[BODY_LAST] = mlast;
   V_ASSERT(audit(&V0), "pre_audit");
   net = (int) nsel;
 
@@ -619,8 +685,12 @@ V_HARNESS(h_put)
     ri = -1; for (i = 0; i < NP; i++) if (pg_live[i] && r == pg_ptr[i]) ri = i;
     V_ASSERT(r != NULL && ri >= 0, "put_returns_live_page");
     V_ASSERT(V1.p_pgno[ri] == pgno && V1.p_subno[ri] == s2 && V1.p_fn[ri] == (int) (C10_PUT_FN) && V1.p_nat[ri] == SRC.national && V1.p_flags[ri] == SRC.flags
-             && V1.p_m0[ri] == m0 && ((const uint8_t *) r)[C10_PSIZE - 1] == mlast && r->lop_packets == SRC.lop_packets && r->x26_designations == C10_PUT_X26
+             && V1.p_m0[ri] == m0 && ((const uint8_t *) r)[BODY_LAST] == mlast && r->lop_packets == SRC.lop_packets && r->x26_designations == C10_PUT_X26
              && r->x28_designations == C10_PUT_X28 && V1.p_net[ri] == net && V1.p_ref[ri] == 1 && V1.p_size[ri] == size, "put_stores_copy_under_normalised_key");
+#ifdef VERIF_CBMC
+    V_ASSERT(MC_calls == 1 && MC_dst == (const void *) ((const char *) r + offsetof(cache_page, data)) && MC_src == (const void *) ((const char *) SRCP + offsetof(cache_page, data))
+             && MC_n == C10_PSIZE - offsetof(cache_page, data) && pg_size[ri] == C10_PSIZE, "put_body_copy_stays_inside_both_allocations");
+#endif
     if ((pgno & 0xFF) == 0) V_ASSERT(V1.p_pri[ri] == CACHE_PRI_SPECIAL, "put_magazine_start_page_is_special");
     vfree = v >= 0 && V0.p_ref[v] == 0;
     if (v < 0) {
@@ -738,6 +808,167 @@ V_HARNESS(h_unref)
     }
     V_ASSERT(netseq_without(&V0, &V1, GN, 0) && V1.ca_nets == V0.ca_nets, "unref_network_list");
   }
+  V_END();
+}
+
+/* sum of the sizes of the pages flagged in g[] (all unreferenced in the pre state) */
+static unsigned long gone_mem(const struct view *v, const int *g) { unsigned long m = 0; int i; for (i = 0; i < NP; i++) if (g[i] && v->p_live[i] && v->p_ref[i] == 0) m += v->p_size[i]; return m; }
+
+/* cache_network_unref: dropping the last reference runs delete_surplus_networks - from the least recently used end,
+ * every network nobody holds is deleted with all its pages if it is a zombie or the cache holds more than
+ * n_networks_limit (= 1) networks */
+V_HARNESS(h_net_unref)
+{
+  unsigned nsel; int i, k, m, r0; unsigned cnt;
+  V_INIT();
+  build_state(NP);
+  nsel = in_u8();
+  V_ASSUME(nsel < NN && net_live[nsel]);
+  V_ASSERT(audit(&V0), "pre_audit");
+  r0 = V0.n_ref[nsel];
+
+  cache_network_unref(net_ptr[nsel]);
+
+  V_ASSERT(audit(&V1), "post_audit");
+  for (i = 0; i < NP; i++) GP[i] = 0;
+  for (i = 0; i < NN; i++) GN[i] = 0;
+  if (r0 == 0) {
+    V_ASSERT(all_same(&V0, &V1), "netunref_of_unreferenced_network_is_a_noop");
+    V_REACH("noop");
+  } else {
+    cnt = V0.ca_nets;
+    if (r0 == 1)
+      for (k = NN - 1; k >= 0; k--) if (k < V0.nn) {
+        m = V0.ns[k];
+        if ((m == (int) nsel ? 0 : V0.n_ref[m]) > 0 || V0.n_refd[m] > 0) continue;
+        if (V0.n_zombie[m] || cnt > 1) { GN[m] = 1; if (!V0.n_zombie[m]) cnt--; }
+      }
+    for (i = 0; i < NP; i++) GP[i] = V0.p_live[i] && GN[V0.p_net[i]];
+    for (i = 0; i < NP; i++) { if (GP[i]) V_ASSERT(!V1.p_live[i], "netunref_deleted_network_pages_freed"); else V_ASSERT(page_same(&V0, &V1, i), "netunref_other_pages_untouched"); }
+    for (m = 0; m < NN; m++) {
+      if (GN[m]) V_ASSERT(!V1.n_live[m], "netunref_surplus_network_freed");
+      else if (m != (int) nsel) V_ASSERT(net_same(&V0, &V1, m), "netunref_other_networks_untouched");
+      else V_ASSERT(V1.n_live[m] && V1.n_ref[m] == r0 - 1 && V1.n_zombie[m] == V0.n_zombie[m] && V1.n_cached[m] == V0.n_cached[m] && V1.n_refd[m] == V0.n_refd[m], "netunref_decrements");
+    }
+    V_ASSERT(lists_without(&V0, &V1, GP) && netseq_without(&V0, &V1, GN, 0), "netunref_lists_lose_exactly_the_freed_objects");
+    V_ASSERT(V1.ca_nets == cnt && V1.ca_mem == V0.ca_mem - gone_mem(&V0, GP), "netunref_accounting");
+    if (GN[nsel]) V_REACH("dropped"); else V_REACH("kept");
+  }
+  V_END();
+}
+
+/* _vbi_cache_add_network(ca, NULL): the channel switch.  With the cache at its network limit the least recently
+ * used network nobody holds is recycled (all its pages deleted), else a new one is allocated; either way the
+ * returned network has no pages */
+V_HARNESS(h_add_network)
+{
+  int c, m, k, i, rec; cache_network *cn;
+  V_INIT();
+  BUILD_MAX_NETS = NN - 1;
+  build_state(NP);
+  V_ASSERT(audit(&V0), "pre_audit");
+
+  cn = _vbi_cache_add_network(CA, NULL, 0);
+
+  V_ASSERT(audit(&V1), "post_audit");
+  c = net_index(cn);
+  V_ASSERT(cn != NULL && c >= 0, "addnet_returns_live_network");
+  rec = -1;
+  if (V0.ca_nets >= 1) for (k = 0; k < NN; k++) if (k < V0.nn) { m = V0.ns[k]; if (V0.n_ref[m] == 0 && V0.n_refd[m] == 0) rec = m; }
+  for (i = 0; i < NN; i++) GN[i] = i == rec;
+  for (i = 0; i < NP; i++) GP[i] = rec >= 0 && V0.p_live[i] && V0.p_net[i] == rec;
+  if (rec >= 0) {
+    V_ASSERT(c == rec && V1.ca_nets == V0.ca_nets, "addnet_recycles_lru_unheld_network");
+    V_REACH("recycled");
+  } else {
+    V_ASSERT(!V0.n_live[c] && V1.ca_nets == V0.ca_nets + 1, "addnet_allocates_when_nothing_recyclable");
+    V_REACH("allocated");
+  }
+  V_ASSERT(V1.nn >= 1 && V1.ns[0] == c && V1.n_ref[c] == 1 && V1.n_zombie[c] == 0 && V1.n_cached[c] == 0 && V1.n_refd[c] == 0 && V1.n_maxc[c] == 0, "addnet_fresh_network_state");
+  for (i = 0; i < NP; i++) {
+    if (GP[i]) V_ASSERT(!V1.p_live[i], "addnet_recycled_network_pages_freed"); else V_ASSERT(page_same(&V0, &V1, i), "addnet_other_pages_untouched");
+    V_ASSERT(!V1.p_live[i] || V1.p_net[i] != c, "addnet_no_page_of_the_old_network_reachable");
+  }
+  for (m = 0; m < NN; m++) if (m != c) V_ASSERT(net_same(&V0, &V1, m), "addnet_other_networks_untouched");
+  V_ASSERT(lists_without(&V0, &V1, GP) && netseq_without(&V0, &V1, GN, 1), "addnet_lists");
+  V_ASSERT(V1.ca_mem == V0.ca_mem - gone_mem(&V0, GP), "addnet_memory_accounting");
+  V_END();
+}
+
+/* _vbi_cache_get_network by one of the cache's own network pointers / cache_network_ref */
+V_HARNESS(h_get_network)
+{
+  unsigned nsel, foreign; int i, m; cache_network *cn; static vbi_network FOREIGN;
+  V_INIT();
+  build_state(NP);
+  nsel = in_u8(); foreign = in_u8() & 1;
+  V_ASSUME(nsel < NN && net_live[nsel]);
+  V_ASSERT(audit(&V0), "pre_audit");
+
+  cn = _vbi_cache_get_network(CA, foreign ? &FOREIGN : &net_ptr[nsel]->network);
+
+  V_ASSERT(audit(&V1), "post_audit");
+  if (foreign) {
+    V_ASSERT(cn == NULL && all_same(&V0, &V1), "getnet_unknown_network_not_found");
+    V_REACH("unknown");
+  } else {
+    for (i = 0; i < NN; i++) GN[i] = i == (int) nsel;
+    V_ASSERT(cn == net_ptr[nsel] && V1.n_ref[nsel] == V0.n_ref[nsel] + 1 && V1.n_zombie[nsel] == 0 && V1.ca_nets == V0.ca_nets + (unsigned) V0.n_zombie[nsel]
+             && V1.n_cached[nsel] == V0.n_cached[nsel] && V1.n_refd[nsel] == V0.n_refd[nsel], "getnet_takes_reference_and_revives");
+    V_ASSERT(V1.nn == V0.nn && V1.ns[0] == (int) nsel && netseq_without(&V0, &V1, GN, 1), "getnet_moves_to_list_head");
+    for (m = 0; m < NN; m++) if (m != (int) nsel) V_ASSERT(net_same(&V0, &V1, m), "getnet_other_networks_untouched");
+    for (i = 0; i < NP; i++) V_ASSERT(page_same(&V0, &V1, i), "getnet_pages_untouched");
+    V_ASSERT(lists_without(&V0, &V1, NULL) && V1.ca_mem == V0.ca_mem, "getnet_lists_untouched");
+    cn = cache_network_ref(cn);
+    V_ASSERT(cn == net_ptr[nsel] && audit(&V1) && V1.n_ref[nsel] == V0.n_ref[nsel] + 2, "netref_increments");
+    V_REACH("found");
+  }
+  V_END();
+}
+
+/* vbi_cache_purge: every unreferenced page is freed; a network nobody holds (no reference, no referenced page) is
+ * freed, any other becomes a zombie ("marked for deletion when unreferenced": cache_page_unref / cache_network_unref
+ * obligations show the deletion); referenced pages stay intact and reachable for their holders */
+V_HARNESS(h_purge)
+{
+  int i, m; unsigned freed[NN];
+  V_INIT();
+  build_state(NP);
+  V_ASSERT(audit(&V0), "pre_audit");
+
+  vbi_cache_purge(CA);
+
+  V_ASSERT(audit(&V1), "post_audit");
+  for (m = 0; m < NN; m++) freed[m] = 0;
+  for (i = 0; i < NP; i++) { GP[i] = V0.p_live[i] && V0.p_ref[i] == 0; if (GP[i]) freed[V0.p_net[i]]++; }
+  for (m = 0; m < NN; m++) GN[m] = V0.n_live[m] && V0.n_ref[m] == 0 && V0.n_refd[m] == 0;
+  for (i = 0; i < NP; i++) if (V0.p_live[i]) {
+    if (GP[i]) V_ASSERT(!V1.p_live[i], "purge_frees_unreferenced_pages");
+    else { V_ASSERT(page_same(&V0, &V1, i), "purge_referenced_page_untouched"); V_REACH("page_kept"); }
+  }
+  for (m = 0; m < NN; m++) if (V0.n_live[m]) {
+    if (GN[m]) V_ASSERT(!V1.n_live[m], "purge_frees_unheld_networks");
+    else { V_ASSERT(V1.n_live[m] && V1.n_zombie[m] == 1 && V1.n_ref[m] == V0.n_ref[m] && V1.n_refd[m] == V0.n_refd[m] && V1.n_cached[m] == V0.n_cached[m] - freed[m], "purge_held_network_becomes_zombie"); V_REACH("net_zombie"); }
+  }
+  V_ASSERT(V1.pn == 0 && lists_without(&V0, &V1, GP) && netseq_without(&V0, &V1, GN, 0) && V1.ca_nets == 0 && V1.ca_mem == 0, "purge_lists_and_accounting");
+  V_END();
+}
+
+/* vbi_cache_delete with no reference outstanding: every allocation is freed (the allocator model counts) */
+V_HARNESS(h_delete)
+{
+  int i;
+  V_INIT();
+  build_state(NP);
+  for (i = 0; i < NP; i++) V_ASSUME(!pg_live[i] || pg_ptr[i]->ref_count == 0);
+  for (i = 0; i < NN; i++) V_ASSUME(!net_live[i] || net_ptr[i]->ref_count == 0);
+  V_ASSERT(audit(&V0), "pre_audit");
+
+  vbi_cache_delete(CA);
+
+  V_ASSERT(n_free == n_alloc && !ca_live, "delete_frees_every_allocation");
+  for (i = 0; i < NP; i++) V_ASSERT(!pg_live[i], "delete_frees_pages");
+  for (i = 0; i < NN; i++) V_ASSERT(!net_live[i], "delete_frees_networks");
   V_END();
 }
 
